@@ -205,6 +205,17 @@ PROPS["C10"] = {
     "rule": "case = one loop history or one hammer round; distinct_nontrivial counts distinct (submitters, tasks, closers, preStop, yield level, ran-fraction) classes and API method pairs observed concurrently",
     "assumptions": ["the race detector only reports races that actually occur in the executions produced"],
 }
+PROPS["C11"] = {
+    "parts": [part("TestVerifC11", race=True, q=8, t=16, tq=900)],
+    "level": "exploration",
+    "engine": "E4 lifecycle (notifier part)",
+    "technique": "history monitor of each callback stream (unique event ids, overlap counter, sequence numbers around Close) over the real handlerNotifier with hostile handler latencies, re-entrant handlers and seeded pauses at hook H2, under the race detector; grammar check of the OnCandidate log across gather cycles with held STUN replies and Restart",
+    "level_text": "Direct notifier histories for all three streams: 1-60 numbered events in bursts, handler latency 0 / Gosched / microseconds / milliseconds / blocks-until-released, handlers that enqueue further events or call Close, "
+                  "Close(graceful or not) at a random instant plus a final graceful Close; agent-level: 1-4 gather cycles with explicit ufrags, each either completed (STUN reply delivered) or cancelled by Restart while the query is outstanding.",
+    "level_note": "Handlers that never return are not exercised (GracefulClose is documented to wait for them). Interleavings are those the scheduler and the seeded pauses produce.",
+    "rule": "case = one notifier history or one multi-cycle gather history; distinct_nontrivial counts (stream, latency, re-entrancy, close kind/time bucket, yield level, size bucket) and (cycles, completed, addresses, slow handler) classes",
+    "assumptions": ["events are enqueued by one goroutine at a time, as the agent loop does"],
+}
 PROPS["C05"] = {
     "parts": [part("TestVerifC05", q=8, t=16, tq=900)],
     "level": "exploration",
